@@ -112,22 +112,26 @@ NoFalseCycle ==
 FlattenReturns == ph = 1 => Flatten({}, W0, 8) = "returns"
 
 (* ---- universes ---------------------------------------------------------------------------- *)
-TabNK == ("n.k" :> <<NF("n"), NF("k")>>)
+\* "q.k": a dotted name whose FIRST segment is absent from the root (the lookup fails with an error
+\* instead of "not found"); only a resolver (or an Env config) can provide it
+TabNK == ("n.k" :> <<NF("n"), NF("k")>>) @@ ("q.k" :> <<NF("q"), NF("k")>>)
 ShQuick == {Lit("x"), Lit(""), Ref("a"), Ref("b"), Ref("c"), Ref("m"), Ref("n.k"), Ref("n"),
             Cat(<<Ref("b"), Ref("b")>>), Cat(<<Lit("p"), Ref("c")>>), Def(Lit("m"), Lit("d")), Def(Lit("b"), Ref("c")),
             Alt(Lit("b"), Lit("y")), ErrOp(Lit("m"), Lit("boom")), Ind(Ref("c")), Cat(<<Alt(Lit("b"), Lit("y")), Ref("b")>>),
-            Val(P("n", "7"))}
+            Val(P("n", "7")), Ref("q.k"), Alt(Lit("q.k"), Lit("y")), ErrOp(Lit("q.k"), Lit("boom"))}
 ShFull == ShQuick \cup {Cat(<<Ref("a"), Ref("c")>>), Def(Lit("a"), Lit("")), Def(Ref("c"), Lit("d")), Alt(Lit("m"), Lit("y")),
                         ErrOp(Lit("b"), Ref("c")), Cat(<<Ref("n.k"), Ref("m")>>), Ind(Cat(<<Lit("n."), Lit("k")>>)), Val(Nil)}
 ShSmall == {Lit("x"), Ref("a"), Ref("b"), Ref("c"), Ref("m"), Ref("n"), Cat(<<Ref("b"), Ref("b")>>), Def(Lit("b"), Ref("c")),
-            Alt(Lit("b"), Lit("y")), Cat(<<Alt(Lit("b"), Lit("y")), Ref("b")>>)}
+            Alt(Lit("b"), Lit("y")), Cat(<<Alt(Lit("b"), Lit("y")), Ref("b")>>),
+            Cat(<<Lit("p"), Ref("q.k")>>), Def(Lit("q.k"), Lit("d"))}
 ShK == {Lit("z"), Ref("a"), Ref("n"), Ref("c"), Cat(<<Ref("b"), Lit("q")>>)}
 E1 == N(("m" :> StrV("e1")) @@ ("a" :> StrV("ea")), <<>>)
 E2 == N(("m" :> StrV("e2")) @@ ("b" :> Dyn(Ref("m"))), <<>>)
-EnvsAll == {<<>>, <<E1>>, <<E1, E2>>, <<E2, E1>>}
+E3 == N(("q" :> N(("k" :> StrV("eq")), <<>>)), <<>>)
+EnvsAll == {<<>>, <<E1>>, <<E1, E2>>, <<E2, E1>>, <<E3, E1>>}
 EnvsQuick == {<<>>, <<E1, E2>>}
 R0 == [x \in {} |-> ""]
-R1 == ("m" :> "r1") @@ ("a" :> "ra")
+R1 == ("m" :> "r1") @@ ("a" :> "ra") @@ ("q.k" :> "rq")
 R2 == ("m" :> "r2")
 ResAll == {<<>>, <<R0>>, <<R1>>, <<R1, R2>>, <<R2, R1>>}
 ResQuick == {<<>>, <<R0>>, <<R1, R2>>}
